@@ -3,6 +3,7 @@ import json
 import keyword
 import os
 import random
+import re
 import sys
 import urllib.parse
 
@@ -39,13 +40,14 @@ def reserved_set():
 
 
 def floors(tier):
-    return {"pairs_judged": 500, "positions": 13, "collision_configs": 3}
+    return {"pairs_judged": 500, "positions": 13, "collision_configs": 3, "namesake_calls": 40}
 
 
 def plan(seed, tier):
     cases = [{"id": f"pos-{p}", "position": p, "seed": seed} for p in apigen.C12_POSITIONS]
     cases.append({"id": "collisions", "position": "collisions", "seed": seed})
     cases.append({"id": "twin-modules", "position": "twin-modules", "seed": seed})
+    cases.append({"id": "core-namesakes", "position": "core-namesakes", "seed": seed})
     return cases
 
 
@@ -116,6 +118,8 @@ def run_case(case):
         return run_collisions(case, scratch)
     if position == "twin-modules":
         return run_twin_modules(case, scratch)
+    if position == "core-namesakes":
+        return run_core_namesakes(case, scratch)
     words = words_for(position)
     out = {"pairs": [], "harness": [], "generations": 0}
     solve(position, words, scratch, out)
@@ -338,6 +342,84 @@ def run_twin_modules(case, scratch):
             "counters": counters, "sample": {"configs": counters["collision_configs"]}}
 
 
+def run_core_namesakes(case, scratch):
+    """A target proto file named like a module the emitted clients import (google.api_core.operation, the service's own pagers,
+    ...): unary, long-running and paged calls through the sync and asyncio clients must still work and return the file's types."""
+    viol, sigs, counters = [], [], {"collision_configs": 0, "pairs_judged": 0, "namesake_calls": 0}
+    rng0 = random.Random(case["seed"] * 17 + 5)
+    configs = [(fn, False) for fn in apigen.CORE_NAMESAKES] + [(fn, True) for fn in rng0.sample(apigen.CORE_NAMESAKES, 2) + ["plain"]]
+    sample = None
+    for k, (fname, flat_op) in enumerate(configs):
+        rng = random.Random(case["seed"] * 131 + k)
+        api = apigen.core_namesake_api(rng, "wcn%d" % k, fname, flat_operation=flat_op)
+        sub = os.path.join(scratch, "cn%d" % k)
+        os.makedirs(sub, exist_ok=True)
+        req, g, lib = pipeline.build_and_generate(api, sub)
+        counters["collision_configs"] += 1
+        counters["pairs_judged"] += 1
+        label = f"file-named-{fname}" + ("+flattened-parameter-operation" if flat_op else "")
+        mech = {"config": "core-namesake", "file": fname, "flat_operation": flat_op}
+        if not g.ok:
+            viol.append({"clause": "generation-fails", "detail": {"config": label, **g.failure()}, "mech": mech})
+            continue
+        pkg = api.info["pkg"]
+        # structural fact used to tell mechanisms apart: the emitted client imports a foreign module of this very base name WITHOUT
+        # an alias (`from google.api_core import gapic_v1`), so the later import of the API's own module shadows it
+        svc_dir = os.path.join(lib, *apigen.lib_root(api.info, api.options).split("."), "services", "things")
+        hit = False
+        for dp, _dn, fns in os.walk(svc_dir):
+            for fn in fns:
+                if fn.endswith(".py"):
+                    with open(os.path.join(dp, fn)) as fh:
+                        hit = hit or bool(re.search(r"^from google\.\S+ import %s\s*(#.*)?$" % re.escape(fname), fh.read(), re.M))
+        mech["service_module_imports_foreign_module_of_this_name_unaliased"] = hit
+        model = rdm.Model(req)
+        thing = model.new(pkg + ".Thing")
+        thing.name, thing.count, thing.kind = "things/t1", 7, 2
+        meta = model.new(pkg + ".RunMetadata")
+        meta.percent = 100
+        op = model.new("google.longrunning.Operation")
+        op.name, op.done = "operations/o1", True
+        op.response.type_url, op.response.value = "type.googleapis.com/" + pkg + ".Thing", thing.SerializeToString()
+        op.metadata.type_url, op.metadata.value = "type.googleapis.com/" + pkg + ".RunMetadata", meta.SerializeToString()
+        page = model.new(pkg + ".ListThingsResponse")
+        page.things.add().CopyFrom(thing)
+        script = {"root_pkg": apigen.lib_root(api.info, api.options), "position": "core-namesakes", "pkg": pkg, "flat_operation": flat_op,
+                  "thing": rdm.b64(thing.SerializeToString()), "op": rdm.b64(op.SerializeToString()), "page": rdm.b64(page.SerializeToString())}
+        ev, rc, err = pipeline.run_runner("checks.c12", script, lib, timeout=200)
+        if ev is not None and "library_import_error" in ev:
+            viol.append({"clause": "library-import-fails", "detail": {"config": label, **ev["library_import_error"]}, "mech": mech})
+            continue
+        if ev is None or "runner_crash" in ev:
+            return {"verdict": "inconclusive", "why": f"core-namesake runner rc={rc} {err[-400:]} {str(ev)[:800]}"}
+        bad = []
+        for kind in ("grpc", "aio"):
+            o = ev["obs"].get(kind, {})
+            counters["namesake_calls"] += 3
+            want = {"get": pkg + ".Thing", "run_result": pkg + ".Thing", "run_metadata": pkg + ".RunMetadata", "list_items": [pkg + ".Thing"],
+                    "paths": [f"/{pkg}.Things/GetThing", f"/{pkg}.Things/Run", f"/{pkg}.Things/ListThings"]}
+            for key, w in want.items():
+                if o.get(key) != w:
+                    bad.append({"client": kind, "what": key, "observed": o.get(key), "expected": w, "error": (o.get("errors") or [None])[0]})
+            if not bad:
+                sent = model.parse(pkg + ".StartRequest", rdm.unb64(o["run_request"]))
+                exp = model.new(pkg + ".StartRequest")
+                exp.name = "things/t1"
+                if flat_op:
+                    exp.operation = "op-x"
+                else:
+                    exp.thing.CopyFrom(thing)
+                if sent != exp:
+                    bad.append({"client": kind, "what": "flattened LRO request", "observed": str(sent)[:200], "expected": str(exp)[:200]})
+        if bad:
+            viol.append({"clause": "module-collision", "detail": {"config": label, "why": bad[:3]}, "mech": mech})
+        else:
+            sigs.append("core-namesake|" + label)
+            sample = sample or {"config": label, "observed": ev["obs"].get("grpc")}
+    return {"verdict": "violated" if viol else "held", "violations": viol, "evaluations": len(configs), "nontrivial_sigs": sigs,
+            "counters": counters, "sample": sample or {}}
+
+
 def run_collisions(case, scratch):
     """Two dependency packages with one module base name, dependency vs target file, alias that itself collides."""
     from vlib.build import File, STD_DEPS
@@ -443,6 +525,8 @@ def in_runner(script):
     from vlib import rt
     if script["position"] == "twin-modules":
         return twin_runner(script)
+    if script["position"] == "core-namesakes":
+        return core_namesake_runner(script)
     lib = rt.Lib(script["root_pkg"])
     srv = rt.GrpcServer()
     http = rt.HttpServer()
@@ -589,6 +673,63 @@ def _has_field(obj, name):
         return name in type(obj)._meta.fields if hasattr(type(obj), "_meta") else True
     except AttributeError:
         return False
+
+
+def core_namesake_runner(script):
+    import asyncio
+    from vlib import rt
+    lib = rt.Lib(script["root_pkg"])
+    pkg = script["pkg"]
+    srv = rt.GrpcServer()
+    obs = {}
+    Thing = lib.msg_cls(pkg + ".Thing")
+    thing = Thing.deserialize(rt.unb64(script["thing"]))
+
+    def prime():
+        srv.script(f"/{pkg}.Things/GetThing", [{"payloads": [script["thing"]]}])
+        srv.script(f"/{pkg}.Things/Run", [{"payloads": [script["op"]]}])
+        srv.script(f"/{pkg}.Things/ListThings", [{"payloads": [script["page"]]}])
+        return srv.mark()
+
+    def kw():
+        return {"name": "things/t1", "operation": "op-x"} if script["flat_operation"] else {"name": "things/t1", "thing": thing}
+
+    def finish(o, mark):
+        evs = srv.since(mark)
+        o["paths"] = [e["method"] for e in evs]
+        run = [e for e in evs if e["method"].endswith("/Run")]
+        o["run_request"] = run[0]["requests"][0] if run else None
+
+    o = obs["grpc"] = {"errors": []}
+    mark = prime()
+    try:
+        gc = lib.grpc_client("Things", srv.target)
+        o["get"] = rt.ser(gc.get_thing(name="things/t1"))[0]
+        fut = gc.run(**kw())
+        o["run_result"] = rt.ser(fut.result(timeout=30))[0]
+        o["run_metadata"] = rt.ser(fut.metadata)[0]
+        o["list_items"] = [rt.ser(x)[0] for x in gc.list_things(parent="shelves/s")]
+    except BaseException as e:  # noqa
+        o["errors"].append(rt.exc_info(e))
+    finish(o, mark)
+
+    async def amain():
+        o = obs["aio"] = {"errors": []}
+        mark = prime()
+        try:
+            ac = lib.aio_client("Things", srv.target)
+            o["get"] = rt.ser(await ac.get_thing(name="things/t1"))[0]
+            fut = await ac.run(**kw())
+            o["run_result"] = rt.ser(await fut.result(timeout=30))[0]
+            o["run_metadata"] = rt.ser(fut.metadata)[0]
+            o["list_items"] = [rt.ser(x)[0] async for x in await ac.list_things(parent="shelves/s")]
+        except BaseException as e:  # noqa
+            o["errors"].append(rt.exc_info(e))
+        finish(o, mark)
+
+    asyncio.run(amain())
+    srv.stop()
+    return {"obs": obs}
 
 
 def twin_runner(script):
